@@ -1,9 +1,10 @@
 ------------------------------ MODULE H2Tasks ------------------------------
 (***************************************************************************)
 (* IMPLEMENTATION layer: h2's WAKE-UP PROTOCOL - every place where the     *)
-(* library stores a waker and every place where it wakes one (client role) *)
+(* library stores a waker and every place where it wakes one (client role: *)
+(* Streams / Pushed; server role: Remote)                                  *)
 (* src/proto/streams/{stream,send,recv,prioritize,streams,counts,state}.rs,*)
-(* src/proto/connection.rs, src/client.rs, src/share.rs.                   *)
+(* src/proto/connection.rs, src/client.rs, src/server.rs, src/share.rs.    *)
 (*                                                                         *)
 (* One action per critical section (one hold of the `Inner` mutex), named  *)
 (* after the function that takes the lock.  The helpers of the code are    *)
@@ -25,6 +26,7 @@
 (*      sendTask, recvTask, pushTask   THE THREE WAKER SLOTS: NoTask or    *)
 (*                                the task whose waker is stored           *)
 (*   G.cn     connection: task (Actions.task registered), ct (the          *)
+(*            [sr: a SendRequest handle other than SR is alive (client)]   *)
 (*            connection task: "parked" | "active" | "done"), err          *)
 (*            (Actions.conn_error), maxSend / numSend / numRecv (Counts),  *)
 (*            cwin / cavail (Prioritize.flow), ps / pcq / po (pending_send *)
@@ -57,7 +59,8 @@
 (*    (the code answers RST_STREAM(STREAM_CLOSED) - no waker involved);    *)
 (*  - reset expiry (30 s) never happens; the lifetime quota of library     *)
 (*    resets and the reset-stream limits are not reached; content-length,  *)
-(*    informational responses, PING, user GOAWAY: out of scope;            *)
+(*    informational responses, PING, user GOAWAY, push_request on a server *)
+(*    (is_pending_push), refused streams: out of scope;                    *)
 (*  - the end of the connection (peer EOF; or GOAWAY received and the last *)
 (*    stream gone) is ONE step: Inner::recv_eof / handle_error on every    *)
 (*    linked stream + Drop for Connection (recv_eof(true)).                *)
@@ -137,7 +140,8 @@ NoStr == [inStore |-> FALSE, linked |-> FALSE, state |-> StIdle, counted |-> FAL
           win |-> 0, avail |-> 0, req |-> 0, buf |-> 0, capInc |-> FALSE, q |-> <<>>,
           pSend |-> FALSE, pOpen |-> FALSE, pCap |-> FALSE, pWU |-> FALSE, pAcc |-> FALSE,
           rq |-> <<>>, rwin |-> 0, ravail |-> 0, infl |-> 0, isRecv |-> TRUE, ppq |-> <<>>,
-          sendTask |-> NoTask, recvTask |-> NoTask, pushTask |-> NoTask]
+          sendTask |-> NoTask, recvTask |-> NoTask, pushTask |-> NoTask,
+          openTask |-> NoTask]        \* (since fix 324faa6) SendRequest::poll_ready waits in a slot of its own, woken together with send_task
 \* Stream::new(id, init_send_window, init_recv_window) + Store::insert
 NewStr(sw) == [NoStr EXCEPT !.inStore = TRUE, !.linked = TRUE, !.win = sw, !.rwin = RecvWin, !.ravail = RecvWin]
 
@@ -165,12 +169,17 @@ Emit(G, e) == [G EXCEPT !.out = Append(@, e)]
 \* ---- waking ----------------------------------------------------------------------------------------
 \* Waker::wake: the task runs again (a task that is not inside a parked call has nothing to poll: no effect)
 Wake(G, t) == IF t # NoTask /\ G.tk[t].call # "none" THEN [G EXCEPT !.tk[t].woken = TRUE] ELSE G
-NotifySend(G, x) == [Wake(G, G.s[x].sendTask) EXCEPT !.s[x].sendTask = NoTask]   \* send_task.take().wake()
+NotifySend(G, x) == [Wake(Wake(G, G.s[x].sendTask), G.s[x].openTask) EXCEPT !.s[x].sendTask = NoTask, !.s[x].openTask = NoTask]   \* send_task.take().wake(); open_task.take().wake()
 NotifyRecv(G, x) == [Wake(G, G.s[x].recvTask) EXCEPT !.s[x].recvTask = NoTask]
 NotifyPush(G, x) == [Wake(G, G.s[x].pushTask) EXCEPT !.s[x].pushTask = NoTask]
 NotifyAll(G, x) == NotifyPush(NotifyRecv(NotifySend(G, x), x), x)                \* recv_reset / handle_error / recv_eof order
 \* actions.task.take().wake(): the connection task
 WakeConn(G) == IF G.cn.task THEN [G EXCEPT !.cn.task = FALSE, !.cn.ct = IF @ = "parked" THEN "active" ELSE @] ELSE G
+
+\* Inner.refs > 1 apart from the handle being dropped: a SendRequest handle or any stream handle is alive
+OtherRefs(G) == G.cn.sr \/ \E x \in AllIds : G.s[x].refs > 0
+\* Drop for Streams (a SendRequest handle goes away): refs -= 1; if refs == 1 the connection task is woken
+StreamsDrop(G, others) == IF others \/ OtherRefs(G) THEN G ELSE WakeConn(G)
 
 \* ---- counts.rs ------------------------------------------------------------------------------------
 DecNumStreams(G, x) == IF IsLocalInit(x) THEN [G EXCEPT !.cn.numSend = @ - 1, !.s[x].counted = FALSE]
@@ -316,12 +325,13 @@ DropStreamRef(G, x) ==
         D4 == IF r.refs = 0
               THEN CancelPromises([ReleaseClosedCapacity(D3, x) EXCEPT !.s[x].ppq = <<>>], D3.s[x].ppq)
               ELSE D3
-    IN TransitionAfter(D4, x)
+        D5 == TransitionAfter(D4, x)
+    IN IF OtherRefs(D5) THEN D5 ELSE WakeConn(D5)          \* (since the fix for F-T4: `if me.refs == 1 { task.wake() }`)
 
 \* ---- initial state -----------------------------------------------------------------------------------------
 Init0(maxSend) ==
     /\ str = [x \in AllIds |-> NoStr]
-    /\ cn = [task |-> TRUE, ct |-> "parked", err |-> "none", maxSend |-> maxSend, numSend |-> 0, numRecv |-> 0,
+    /\ cn = [task |-> TRUE, ct |-> "parked", err |-> "none", sr |-> TRUE, maxSend |-> maxSend, numSend |-> 0, numRecv |-> 0,
              cwin |-> ConnWin, cavail |-> ConnWin, ps |-> <<>>, pcq |-> <<>>, po |-> <<>>,
              cwinR |-> RecvWin, cavailR |-> RecvWin, cinfl |-> 0, pwu |-> <<>>, pa |-> <<>>,
              initWin |-> InitWin, nextId |-> 1, nextRecvId |-> IF Remote = {} THEN 2 ELSE 1, maxId |-> 1000,
@@ -359,9 +369,9 @@ ReadyReady(G, p) == G.cn.err # "none" \/ p = 0 \/ ~G.s[p].pOpen
 \* (Ready: `self.pending = None` drops the clone of the pending stream - drop_stream_ref, a second lock hold folded in here;
 \*  Err: the application drops the handle)
 PollReady(G, t, p) ==
-    IF G.cn.err # "none" THEN Ready(IF p # 0 THEN DropStreamRef(G, p) ELSE G, t, "poll_ready", p, "err", 0)
-    ELSE IF p # 0 /\ G.s[p].pOpen THEN Park([G EXCEPT !.s[p].sendTask = t], t, "poll_ready", p)        \* wait_send on the PENDING STREAM's slot
-    ELSE Ready(IF p # 0 THEN DropStreamRef(G, p) ELSE G, t, "poll_ready", p, "ok", 0)
+    IF G.cn.err # "none" THEN Ready(StreamsDrop(IF p # 0 THEN DropStreamRef(G, p) ELSE G, FALSE), t, "poll_ready", p, "err", 0)
+    ELSE IF p # 0 /\ G.s[p].pOpen THEN Park([G EXCEPT !.s[p].openTask = t], t, "poll_ready", p)        \* wait_open on the pending stream (its own slot since 324faa6)
+    ELSE Ready(StreamsDrop(IF p # 0 THEN DropStreamRef(G, p) ELSE G, FALSE), t, "poll_ready", p, "ok", 0)
 \* Recv::poll_response
 ResponseReady(r) == r.rq # <<>> \/ RecvOpenSt(r.state) # "open"
 PollResponse(G, t, x) ==
@@ -418,7 +428,8 @@ WouldBeReady(G, c, x) ==
       [] c = "poll_push" -> PushReady(G.s[x])
 \* the waker slot a parked call waits in
 SlotOf(G, c, x) ==
-    CASE c \in {"poll_capacity", "poll_reset", "poll_ready"} -> G.s[x].sendTask
+    CASE c \in {"poll_capacity", "poll_reset"} -> G.s[x].sendTask
+      [] c = "poll_ready" -> G.s[x].openTask
       [] c \in {"poll_response", "poll_data", "poll_trailers"} -> G.s[x].recvTask
       [] c = "poll_push" -> G.s[x].pushTask
 
@@ -458,7 +469,7 @@ Repoll(t) ==
 \* Streams::send_request. keep = TRUE: through the SR handle, which remembers the stream as `pending` when it is pending open and the
 \* limit is reached (client.rs) and will call poll_ready; keep = FALSE: through a clone that is dropped at once (its `pending` with it)
 SendRequest(x, eos, keep) ==
-    /\ x \in Streams /\ x = cn.nextId
+    /\ x \in Streams /\ x = cn.nextId /\ cn.sr
     /\ keep => (tk[SR].call = "none" /\ srp = -1)
     /\ IF cn.err # "none"
        THEN \* ensure_no_conn_error
@@ -477,6 +488,12 @@ SendRequest(x, eos, keep) ==
                /\ app' = [app EXCEPT ![x].send = TRUE, ![x].recv = TRUE]
                /\ srp' = IF pend THEN x ELSE IF keep THEN 0 ELSE srp
     /\ UNCHANGED inbox
+
+\* the application drops its last SendRequest handle apart from SR (Drop for Streams): no request can follow
+DropSr ==
+    /\ cn.sr /\ Streams # {}
+    /\ Commit(StreamsDrop([Cur EXCEPT !.cn.sr = FALSE], srp >= 0))
+    /\ UNCHANGED <<app, srp, inbox>>
 
 \* ResponseFuture::push_promises (a clone of the OpaqueStreamRef)
 HoldPush(x) ==
@@ -674,7 +691,9 @@ RecvFrame(G, f) ==
                      G0 == [G EXCEPT !.cn.cwinR = @ - f.n, !.cn.cavailR = @ - f.n, !.cn.cinfl = @ + f.n]
                  IN IF IsLocalErrorSt(r.state) THEN TransitionAfter(ReleaseConnCapacity(G0, f.n, FALSE), x)   \* ignore_data
                     ELSE IF ~r.isRecv                                                                    \* "no one cared about it" (issue 648)
-                    THEN TransitionAfter(ReleaseConnCapacity([G0 EXCEPT !.s[x].state = IF f.eos THEN RecvCloseSt(r.state) ELSE r.state], f.n, FALSE), x)
+                    THEN LET stq == IF f.eos THEN RecvCloseSt(r.state) ELSE r.state
+                             Gq == ReleaseConnCapacity([G0 EXCEPT !.s[x].state = stq], f.n, FALSE)
+                         IN TransitionAfter(IF IsRecvEndStreamSt(stq) THEN NotifyPush(Gq, x) ELSE Gq, x)          \* (notify_push since fix 2f90fc4)
                     ELSE LET st2 == IF f.eos THEN RecvCloseSt(r.state) ELSE r.state
                              G1 == [G0 EXCEPT !.s[x].state = st2, !.s[x].rwin = @ - f.n, !.s[x].ravail = @ - f.n, !.s[x].infl = @ + f.n]
                              G2 == IF f.n = 0 /\ ~f.eos THEN G1
@@ -773,6 +792,8 @@ Reclaim(G) ==
     LET x == G.cn.infl.s
         G1 == [G EXCEPT !.cn.infl = NoInfl, !.s[x].q = <<FData(G.cn.infl.n, G.cn.infl.eos)>> \o @]
     IN IF G1.s[x].avail > 0 THEN PushPS(G1, x) ELSE G1
+\* client::Connection::poll: no SendRequest, no stream handle, no counted stream: the connection says GOAWAY(NO_ERROR) and ends
+NoRefs(G) == Streams # {} /\ ~OtherRefs(G) /\ srp < 0 /\ G.cn.numSend = 0 /\ G.cn.numRecv = 0
 ConnPop ==
     /\ cn.ct = "active" /\ inbox = <<>>
     /\ LET PL == PopLoop(PopPendingOpen(SendWUs(Cur)))
@@ -781,6 +802,8 @@ ConnPop ==
           ELSE IF PL.popped THEN Commit(G)
           ELSE IF G.cn.err = "goaway" /\ G.cn.numSend = 0 /\ G.cn.numRecv = 0
           THEN Commit(ConnDone(G))                                               \* go_away_now(NO_ERROR) .. handle_go_away .. Drop
+          ELSE IF NoRefs(G)
+          THEN Commit(ConnDone(G))                                               \* client: maybe_close_connection_if_no_streams / "wake again"
           ELSE Commit([G EXCEPT !.cn.task = TRUE, !.cn.ct = "parked"])
     /\ UNCHANGED <<app, srp, inbox>>
 
@@ -796,6 +819,7 @@ ConnWork == \/ \E i \in 1..Len(cn.ps) : LET r == str[cn.ps[i]] IN
                    r.q = <<>> \/ Head(r.q).k # "D" \/ Head(r.q).n = 0 \/ (Clamp0(r.avail) > 0 /\ Clamp0(r.win) > 0) \/ IsSchedSt(r.state)
             \/ (cn.po # <<>> /\ cn.maxSend > cn.numSend)
             \/ Unclaimed(cn.cwinR, cn.cavailR) > 0
+            \/ NoRefs(Cur)                                                        \* it has to close
             \/ \E i \in 1..Len(cn.pwu) : LET r == str[cn.pwu[i]] IN IsRecvStreamingSt(r.state) /\ Unclaimed(r.rwin, r.ravail) > 0
 ConnNotIdleWithWork == (cn.ct = "parked" /\ Quiescent) => ~ConnWork
 \* ... because whoever gives it work takes the registered waker: parked with work => already woken
@@ -814,7 +838,8 @@ AllResolvedAtEndG == (cn.ct = "done" /\ Quiescent) => \A t \in Tasks : Parked(t)
 SlotHeld == \A t \in Tasks : Parked(t) /\ ~tk[t].woken => SlotOf(Cur, tk[t].call, tk[t].sid) = t
 \* ... and a slot holds only a task parked in a call that waits in this slot (no stale waker is ever woken)
 SlotsFresh == \A x \in AllIds : str[x].inStore =>
-                 /\ str[x].sendTask # NoTask => Parked(str[x].sendTask) /\ tk[str[x].sendTask].sid = x /\ tk[str[x].sendTask].call \in {"poll_capacity", "poll_reset", "poll_ready"}
+                 /\ str[x].sendTask # NoTask => Parked(str[x].sendTask) /\ tk[str[x].sendTask].sid = x /\ tk[str[x].sendTask].call \in {"poll_capacity", "poll_reset"}
+                 /\ str[x].openTask # NoTask => Parked(str[x].openTask) /\ tk[str[x].openTask].sid = x /\ tk[str[x].openTask].call = "poll_ready"
                  /\ str[x].recvTask # NoTask => Parked(str[x].recvTask) /\ tk[str[x].recvTask].sid = x /\ tk[str[x].recvTask].call \in {"poll_response", "poll_data", "poll_trailers"}
                  /\ str[x].pushTask # NoTask => Parked(str[x].pushTask) /\ tk[str[x].pushTask].sid = x /\ tk[str[x].pushTask].call = "poll_push"
 \* structure
